@@ -333,6 +333,36 @@ func runC26(c *eng.Ctx) {
 		c.Expect("GUARD-post-bucket", 3)
 	}
 
+	// ---------------------------------------------------------------- (3c) credentials are looked up in the live configuration
+	// loadS3ApiConfiguration replaces IdentityAccessManagement.identities as a whole; a lookup that answers "found" has
+	// read that list in this very call (an answer remembered from before a reload would keep rotated secrets and
+	// removed permissions alive), and the identity and credential it returns are elements of that list
+	for _, name := range []string{"(*IdentityAccessManagement).lookupByAccessKey", "(*IdentityAccessManagement).lookupAnonymous"} {
+		fn := c.NeedFunc("weed/s3api", name)
+		if fn == nil {
+			continue
+		}
+		readsList := func(in ssa.Instruction) bool {
+			u, ok := in.(*ssa.UnOp)
+			return ok && u.Op == token.MUL && eng.IsField(u, "IdentityAccessManagement.identities")
+		}
+		var founds []ssa.Instruction
+		for _, r := range eng.Find(fn, eng.IsReturn) {
+			ret := r.(*ssa.Return)
+			last := ret.Results[len(ret.Results)-1]
+			for _, v := range eng.ResolveFrom(last, ret) {
+				if k, ok := eng.ConstBool(v); !ok || k {
+					founds = append(founds, r)
+					break
+				}
+			}
+		}
+		if len(founds) == 0 {
+			c.Undecided("GUARD-live-config", eng.FuncName(fn), fn.Pos(), "no found=true return")
+		}
+		c.Before("GUARD-live-config", "found-only-after-reading-the-configured-identities", fn, readsList, founds, "an access key is answered as known only after the configured identity list was read in this call")
+	}
+
 	// ---------------------------------------------------------------- (4) GUARD-auth
 	if auth := c.NeedFunc("weed/s3api", "(*IdentityAccessManagement).Auth"); auth != nil && len(auth.AnonFuncs) == 1 {
 		w := auth.AnonFuncs[0]
